@@ -200,22 +200,22 @@ example : lookupLabel "$out" (Env.empty.push (.label "$out" 7)).bs = some 7 := r
 
 /-- One step of `reduce … as $x (…; update)`: when `update` emits at least one value and ends
     normally, its LAST output is the new state. -/
-theorem reduce_last_output_is_state (bindPat : St → Except Stop (List Env)) (upd : St → Env → JV → Ident → Res)
+theorem reduce_last_output_is_state (bindPat : St → PatRes) (upd : St → Env → JV → Ident → Res)
     (x : St) (env' : Env) (sv : JV) (sid : Ident) (outs : List St) (l : St)
-    (hb : bindPat x = .ok [env']) (hu : upd x env' sv sid = ⟨outs, .done⟩) (hl : outs.getLast? = some l) :
+    (hb : bindPat x = PatRes.ok [env']) (hu : upd x env' sv sid = ⟨outs, .done⟩) (hl : outs.getLast? = some l) :
     reduceStep bindPat upd (.ok (sv, sid)) x = .ok (l.v, l.id) := by
-  simp [reduceStep, hb, hu, hl]
+  simp [reduceStep, hb, hu, hl, PatRes.ok]
 
 /-- `reduce (1,2) as $x (10; ., $x)` is `2`. -/
 example : ((eval 30 cfg0 .empty exReduceLast sNull).vals == [jvInt 2]) = true := by decide +kernel
 
 /-- One step of `reduce`: when `update` is empty the state is KEPT (gojq; jq 1.5 too —
     jq ≥ 1.6 makes it `null`; the model follows the code). -/
-theorem reduce_empty_keeps_state (bindPat : St → Except Stop (List Env)) (upd : St → Env → JV → Ident → Res)
+theorem reduce_empty_keeps_state (bindPat : St → PatRes) (upd : St → Env → JV → Ident → Res)
     (x : St) (env' : Env) (sv : JV) (sid : Ident)
-    (hb : bindPat x = .ok [env']) (hu : upd x env' sv sid = ⟨[], .done⟩) :
+    (hb : bindPat x = PatRes.ok [env']) (hu : upd x env' sv sid = ⟨[], .done⟩) :
     reduceStep bindPat upd (.ok (sv, sid)) x = .ok (sv, sid) := by
-  simp [reduceStep, hb, hu]
+  simp [reduceStep, hb, hu, PatRes.ok]
 
 /-- `reduce (1,2) as $x (10; empty)` is `10`. -/
 example : ((eval 30 cfg0 .empty exReduceEmpty sNull).vals == [jvInt 10]) = true := by decide +kernel
